@@ -41,7 +41,7 @@ func main() {
 		os.Exit(1)
 	}
 	root := os.Args[1]
-	dirs := []string{"server", "server/wrapped_http", "logging", "prover"}
+	dirs := []string{"server", "server/wrapped_http", "logging", "prover", "poseidon_tree"}
 	yields, listens := 0, 0
 	for _, d := range dirs {
 		ents, _ := os.ReadDir(filepath.Join(root, d))
